@@ -203,12 +203,8 @@ func ModelTimestamp(ts ion.Timestamp) rm.TS {
 	default:
 		t.Prec = 0
 	}
-	if t.Prec < rm.PMinute {
-		t.Hour, t.Minute, t.Second = 0, 0, 0
-	}
-	if t.Prec < rm.PSecond {
-		t.Second = 0
-	} else if ts.GetPrecision() == ion.TimestampPrecisionSecond && dt.Nanosecond() != 0 {
+	if ts.GetPrecision() != ion.TimestampPrecisionNanosecond && dt.Nanosecond() != 0 {
+		// nanoseconds below the declared precision: make them visible
 		t.FracDigits = 9
 		t.FracCoef = big.NewInt(int64(dt.Nanosecond()))
 	}
